@@ -58,7 +58,8 @@ class _Step:
                 keys = []
                 for l2 in leaves:
                     bv2 = ops.bound_vars("O", l2.ndim)
-                    keys.append(smt.zr(smt.R(l2.at_(tuple(bv2)))))
+                    with ops.nested("O"):
+                        keys.append(smt.zr(smt.R(l2.at_(tuple(bv2)))))
                 t = keys[0]
                 for k in keys[1:]:
                     t = ops.PAIR(t, k)
